@@ -68,10 +68,10 @@ h("C17", "c17", "c17_order_hilbert_perm_n3", "thorough", 1800,
   "Hilbert ordering: n=3, D=2, coordinates in {-2..2} U {-0.0}, duplicates allowed: output is a permutation",
   ORD + ["core::delaunay_triangulation::order_vertices_hilbert", "core::util::hilbert::hilbert_quantize"] + HIL)
 h("C17", "c17", "c17_dedup_exact_n3", "quick", 600,
-  "dedup_vertices_exact: n=3, D=2, coordinates in {-1,0,1}: survivors are input vertices, pairwise distinct coordinates, "
+  "dedup_vertices_exact: n=3, D=2, coordinates in {-1,-0.0,+0.0,1}: survivors are input vertices, pairwise distinct coordinates, "
   "every input coordinate tuple keeps a representative", ["core::util::deduplication::dedup_vertices_exact"])
 h("C17", "c17", "c17_dedup_exact_sorted_n3", "quick", 900,
-  "dedup_vertices_exact_sorted (batch path): n=3, D=2, coordinates in {-1,0,1}: same laws",
+  "dedup_vertices_exact_sorted (batch path): n=3, D=2, coordinates in {-1,-0.0,+0.0,1}: same laws",
   ["core::delaunay_triangulation::dedup_vertices_exact_sorted", "core::util::deduplication::coords_equal_exact"])
 for eps, tier in [("125", "quick"), ("150", "thorough")]:
     h("C17", "c17", f"c17_dedup_eps_n3_e{eps}", tier, 1200,
@@ -135,6 +135,10 @@ for nm, form, edge in [("fast_g3_edge_a", "fast", "(0,0)-(1,0)"), ("fast_g3_edge
     h("C12", "c12", f"c12_insphere2d_{nm}", "thorough", 3000,
       f"D=2 in-sphere ({form}): simplex edge fixed at {edge}, third vertex and query range over all 7^4 = 2401 integer points of "
       "[-3,3]^2 x [-3,3]^2: exact sign; degenerate => Err or BOUNDARY", LU4 + LU3)
+for form, tier in [("fast", "thorough"), ("lifted", "thorough"), ("robust1", "quick"), ("robust3", "thorough")]:
+    h("C12", "c12", f"c12_insphere2d_{form}_dyadic_edge", tier, 3000,
+      f"D=2 in-sphere ({form}) on small-scale dyadic input 2^-k*Z^2, k symbolic in 0..=10: simplex edge (0,0)-(1,0), third "
+      "vertex and query over [-2,2]^2 (all scaled): exact sign (|det| >= 9e-13 is > 100x the documented tolerance)", LU4 + LU3)
 PROP_ASSUMPTIONS["C12"] = [
     "coordinates are small integers (or integers times 2^-k) cast exactly to f64; D>=4, D=3 in-sphere and the distance-based "
     "cross-check / perturbation fallbacks of robust_insphere are outside the claim",
@@ -228,6 +232,16 @@ h("C18", "c18", "c18_volume_3d_g1", "quick", 1500, f"simplex_volume D=3, all 3^1
 h("C18", "c18", "c18_volume_3d_g2", "thorough", 10000, f"simplex_volume D=3, all 5^12 quadruples of points in [-2,2]^3: {VOLLAW}", VOL)
 h(["C18", "C19"], "c18", "c18_volume_2d_wrong_arity", "quick", 300,
   "simplex_volume D=2 with any slice length 0..=5: Ok iff exactly 3 points, never a panic", VOL)
+CC = ["geometry::util::circumsphere::circumcenter (la-stack LU solve, zero-tolerance fallback)"]
+h("C18", "c18", "c18_circumcenter_degenerate_2d_g2", "quick", 1800,
+  "circumcenter D=2, all EXACTLY collinear triples of integer points in [-2,2]^2: must be Err -- KNOWN FINDING F4: Ok(garbage) "
+  "where the LU elimination leaves a rounding residue as pivot", CC)
+h("C18", "c18", "c18_circumcenter_value_2d_g2", "thorough", 6000,
+  "circumcenter D=2, all non-collinear triples of integer points in [-2,2]^2: Ok(C) with C = exact rational circumcentre "
+  "(checked as C*d = integer numerator, d = 2*det, relative 1e-9)", CC)
+h("C18", "c18", "c18_circumcenter_translation_2d", "thorough", 8000,
+  "circumcenter D=2 translation invariance: non-degenerate triangle in [-2,2]^2 translated by (m0,m1)*2^k, m in [-3,3], "
+  "k symbolic in 0..=44: C(p+t) = C(p)+t within 2^-48|t| + 2^-30", CC)
 PROP_ASSUMPTIONS["C18"] = [
     "volume value claims only for D <= 3 (closed-form branches); for D = 4 only the degenerate => Err verdict; facet measure, circumcentre, circumradius, inradius and the quality ratios "
     "reach sqrt/hypot (Kani's sqrt model is unfaithful, hypot is FFI) and D >= 4 uses Gram/LDLT: outside the claim",
